@@ -117,7 +117,7 @@ def scenarios_for(prop: str, tier: str, seed: int = 0) -> List[Scenario]:
                 ops = [('remove', ('c', v)) for v in victims] + [('reserve', ('c', 100)), ('get', 0), ('insert', 1)]
                 add('%s/tree/shrunk-then-resized/%d' % (hasher, j), hasher=hasher, capacity=40, prefill=list(range(11)), ops=ops, universe=12)
         # tree bins split by a resize into two halves (keys collide in 64 bins, differ in bit 6)
-        add('identity/tree/split', hasher='identity', capacity=40, prefill=[1 + 64 * i for i in range(12)], ops=[('reserve', ('c', 100)), ('get', 0), ('remove', 1)], universe=2)
+        add('split/tree/split', hasher='split', capacity=40, prefill=list(range(12)), ops=[('reserve', ('c', 100)), ('get', 0), ('remove', 1)], universe=13)
     if prop in ('C03', 'C04', 'C02'):
         # bulk construction: collect() with every lower size hint, colliding and spread keys (crosses one or two resizes)
         for hasher in ('identity', 'const'):
@@ -128,7 +128,7 @@ def scenarios_for(prop: str, tier: str, seed: int = 0) -> List[Scenario]:
         # insertion/removal orders over colliding keys: equal hashes and same-bin/different-hash; even keys are prefilled
         # (the bin is built by treeification), the symbolic keys range over stored and absent (odd) keys
         for hasher in ('const', 'samebin'):
-            for n_pre in ((9, 11) if not thorough else (9, 10, 12, 14)):
+            for n_pre in ((9,) if not thorough else (9, 10, 11, 12, 14)):
                 pre = list(range(0, 2 * n_pre, 2))
                 uni = 2 * n_pre + 1
                 scripts = {'ins-ins': [('insert', 0), ('insert', 1)], 'rem-rem': [('remove', 0), ('remove', 1)], 'ins-rem': [('insert', 0), ('remove', 1)]}
@@ -142,8 +142,8 @@ def scenarios_for(prop: str, tier: str, seed: int = 0) -> List[Scenario]:
             add('%s/tree9/shrink' % hasher, hasher=hasher, capacity=40, prefill=list(range(0, 18, 2)),
                 ops=[('remove', ('c', 0)), ('remove', ('c', 16)), ('remove', 0), ('remove', 1), ('insert', 2)], universe=17, check_each_step=True)
         # a tree bin split by a resize (64 -> 128 -> 256): both halves are rebuilt (tree or list)
-        add('identity/treesplit', hasher='identity', capacity=40, prefill=[1 + 64 * i for i in range(14)], ops=[('reserve', ('c', 100)), ('insert', 0), ('remove', 1)], universe=2, check_each_step=True)
-        add('identity/treesplit2', hasher='identity', capacity=40, prefill=[1 + 128 * i for i in range(10)] + [65], ops=[('reserve', ('c', 100)), ('get', 0)], universe=2, check_each_step=True)
+        add('split/treesplit', hasher='split', capacity=40, prefill=list(range(14)), ops=[('reserve', ('c', 40)), ('insert', 0), ('remove', 1)], universe=15, check_each_step=thorough)
+        add('split/treesplit2', hasher='split', capacity=40, prefill=[0, 2, 4, 6, 8, 10, 12, 14, 16, 18, 1], ops=[('reserve', ('c', 40)), ('get', 0)], universe=20, check_each_step=True)
         S[:] = [x for x in S if x is not None]
     if prop == 'C13':
         for facade in ('guard', 'ref'):
@@ -167,14 +167,33 @@ def scenarios_for(prop: str, tier: str, seed: int = 0) -> List[Scenario]:
             for op in ('retain', 'retain_force'):
                 for i in (range(1, n_entries + 1) if (thorough or not pre) else (1, 2, 5, 10)):
                     add('%s/%s/panic%d' % (hasher, op, i), hasher=hasher, capacity=cap, prefill=pre, ops=base + [(op,), ('insert', 1), ('remove', 2)], universe=uni, panic_at=i)
+    if prop == 'C07':
+        # iteration interleaved with completed operations (one or two whole resizes, removals, replacements, tree conversions)
+        for hasher, cap in (('identity', 1), ('const', 1), ('symbolic', 1)) + ((('highbits', 1), ('identity', 2)) if thorough else ()):
+            uni = 3 if hasher != 'symbolic' else 2
+            for j in (0, 1, 2):
+                ops = [('insert', 0), ('insert', 1), ('iter_new',), ('iter_next', ('c', j)), ('insert', 2), ('insert', 3), ('remove', 0), ('insert', 4), ('iter_drain',)]
+                if hasher == 'symbolic':
+                    ops = [('insert', 0), ('iter_new',), ('iter_next', ('c', min(j, 1))), ('insert', 1), ('insert', 2), ('iter_drain',)]
+                add('%s/cap%s/next%d-then-grow' % (hasher, cap, j), hasher=hasher, capacity=cap, ops=ops, universe=uni)
+        # identity hash, concrete keys: the iterator is created in a 2-bin table and advanced after 1, 2 and 3 doublings
+        for grow in (2, 4, 7):
+            ops = [('insert', ('c', 0)), ('insert', ('c', 1)), ('iter_new',)] + [('insert', ('c', 2 + i)) for i in range(grow)] + [('iter_next', ('c', 1)), ('insert', ('c', 20)), ('remove', 0), ('iter_drain',)]
+            add('identity/cap1/created-before-%d-inserts' % grow, hasher='identity', capacity=1, ops=ops, universe=4)
+        # a tree bin is converted to a list (and the table resized) while the iterator stands inside it
+        add('samebin/tree/untreeify-under-iterator', hasher='samebin', capacity=40, prefill=list(range(10)),
+            ops=[('iter_new',), ('iter_next', ('c', 3)), ('remove', ('c', 9)), ('remove', ('c', 8)), ('remove', ('c', 7)), ('remove', 0), ('remove', 1), ('iter_drain',)], universe=10)
+        add('split/tree/split-under-iterator', hasher='split', capacity=40, prefill=list(range(12)),
+            ops=[('iter_new',), ('iter_next', ('c', 2)), ('reserve', ('c', 40)), ('remove', 0), ('iter_drain',)], universe=12)
     if prop == 'C10':
         # single-thread end-to-end resizes: thresholds crossed by inserts and by reserve, from several initial lengths
         for cap in (1, 2, 3):
-            add('identity/cap%d/grow' % cap, hasher='identity', capacity=cap, ops=[('insert', i) for i in range(6)] + [('len',)], universe=8, check_each_step=True)
-        add('symbolic/cap1/grow', hasher='symbolic', capacity=1, ops=[('insert', i) for i in range(4)], universe=4, check_each_step=True)
+            add('identity/cap%d/grow' % cap, hasher='identity', capacity=cap, ops=[('insert', ('c', i)) for i in range(5)] + [('insert', 0), ('insert', 1), ('insert', ('c', 40)), ('insert', ('c', 41)), ('remove', 0), ('len',)],
+                universe=8, check_each_step=True)
+        add('symbolic/cap1/grow', hasher='symbolic', capacity=1, ops=[('insert', 0), ('insert', 1), ('insert', 2)], universe=3, check_each_step=True)
         add('identity/reserve', hasher='identity', capacity=1, ops=[('insert', 0), ('reserve', ('c', 20)), ('insert', 1), ('reserve', ('c', 100)), ('insert', 2)], universe=3, check_each_step=True)
         add('samebin/tree/reserve', hasher='samebin', capacity=40, prefill=list(range(10)), ops=[('reserve', ('c', 200)), ('get', 0)], universe=11, check_each_step=True)
-        add('identity/treesplit/reserve', hasher='identity', capacity=40, prefill=[1 + 64 * i for i in range(12)], ops=[('reserve', ('c', 100)), ('get', 0)], universe=2, check_each_step=True)
+        add('split/treesplit/reserve', hasher='split', capacity=40, prefill=list(range(12)), ops=[('reserve', ('c', 100)), ('get', 0)], universe=13, check_each_step=True)
     return S
 
 
